@@ -254,9 +254,9 @@ func (r *Runner) Discharge(x *Exec, vc *VC) *Result {
 	r.mu.Unlock()
 	q := x.buildQuery(vc, x.lemmaFacts(vc), nil)
 	res := &Result{VC: vc, QF: !strings.Contains(q, "(forall ") && !strings.Contains(q, "(exists ")}
-	if len(q) > 4<<20 {
+	if len(q) > 24<<20 {
 		res.Status = "error"
-		res.Output = "query exceeds the 4 MiB cap"
+		res.Output = "query exceeds the 24 MiB cap"
 		return res
 	}
 	quick := r.TimeoutS
